@@ -11,7 +11,7 @@ package searcher
 // a child and its current match: the child's cursor is exactly there; nil once the child is
 // exhausted (after initialisation); no child, no match
 //@ spec boolSlot(child search.Searcher, cur *search.DocumentMatch, inited bool) bool = implies(child == nil, cur == nil) && \
-//@     implies(child != nil && cur != nil, child.started && !child.done && child.last == dmKey(cur)) && implies(child != nil && cur == nil && inited, child.done) && \
+//@     implies(child != nil && cur != nil, child.started && !child.done && child.last == dmKey(cur) && len(cur.IndexInternalID) > 0) && implies(child != nil && cur == nil && inited, child.done) && \
 //@     implies(child != nil && !inited, cur == nil && !child.started && !child.done)
 // the three children are different objects (and not the searcher itself), their matches too
 //@ spec boolApart(s *BooleanSearcher) bool = implies(s.mustSearcher != nil, s.mustSearcher != s && s.mustSearcher != s.shouldSearcher && s.mustSearcher != s.mustNotSearcher) && \
